@@ -153,14 +153,14 @@ def c11_set(ns):
 
 PROPS['C11'] = {
     'verus': [],
-    'kani': {'quick': [kset('c11', c11_set([1, 2, 3]))], 'thorough': [kset('c11', c11_set([1, 2, 3, 4]), timeout=6000)]},
+    'kani': {'quick': [kset('c11', c11_set([1, 2, 3, 4]))], 'thorough': [kset('c11', c11_set([1, 2, 3, 4]), timeout=6000)]},
     'probe': False,
     'level': 'other',
     'explanation': 'Kani harnesses on the real integral_iter, integral_iter_ref, Piecewise::integral and Piecewise::indefinite with recording pieces '
                    '(STag -> ITag{id,k}, evaluate logs its argument): same number/order of pieces and bit-identical breakpoints, piece 0 anchored at the '
                    'given knot (indefinite: untranslated), piece i anchored at (end_{i-1}, F_{i-1}(end_{i-1})) so adjacent pieces agree at every interior '
                    'breakpoint; by-value and by-reference iterators satisfy the same contract; empty input gives empty output.',
-    'assumptions': [PARAM, 'bounded: number of pieces N <= 3 (quick) / 4 (thorough)',
+    'assumptions': [PARAM, 'bounded: number of pieces N <= 4',
                     'that each concrete piece type integrates to an antiderivative through its knot is C07 (polynomials) and C09 (log-polynomials)',
                     'the recording piece uses exactly representable small integers for ordinates so that the chain relation is exact'],
 }
@@ -173,7 +173,7 @@ def c12_set(names):
 
 PROPS['C12'] = {
     'verus': [],
-    'kani': {'quick': [kset('c12', c12_set(['c12_n1_k3', 'c12_n2_k3', 'c12_n3_k3']))],
+    'kani': {'quick': [kset('c12', c12_set(['c12_n1_k3', 'c12_n2_k3', 'c12_n3_k3', 'c12_n4_k3']))],
              'thorough': [kset('c12', c12_set(['c12_n1_k3', 'c12_n2_k3', 'c12_n3_k3', 'c12_n4_k3', 'c12_n3_k4', 'c12_n4_k4']), timeout=6000)]},
     'probe': False,
     'level': 'model_checking',
@@ -181,7 +181,7 @@ PROPS['C12'] = {
                    'argument sequence, output k is the piece direct evaluation selects for the running maximum, evaluated at argument k itself, produced '
                    'after exactly k+1 inputs were pulled; for non-decreasing arguments that piece is the one pointwise evaluation selects. Bounded in N and K '
                    '(the cursor lives inside the returned closure, so no invariant can be attached to it).',
-    'assumptions': [PARAM, 'bounded: N <= 3 segments, K = 3 arguments (quick); N <= 4, K <= 4 (thorough)'],
+    'assumptions': [PARAM, 'bounded: N <= 4 segments, K = 3 arguments (quick); N <= 4, K <= 4 (thorough)'],
 }
 
 
@@ -223,13 +223,13 @@ def c15_set(ns):
 
 PROPS['C15'] = {
     'verus': [],
-    'kani': {'quick': [kset('c15', c15_set([1, 2, 3]))], 'thorough': [kset('c15', c15_set([1, 2, 3, 4]))]},
+    'kani': {'quick': [kset('c15', c15_set([1, 2, 3, 4]))], 'thorough': [kset('c15', c15_set([1, 2, 3, 4]))]},
     'probe': False,
     'level': 'other',
     'explanation': 'Kani harnesses on the real Piecewise::{mul, mul_assign, neg, translate} and the Segment-level operations with recording OpTag pieces: '
                    'number of pieces, order and every breakpoint (any f64 bits) unchanged; every piece received the operation exactly once with the given '
                    'scalar and nothing else. Segment level is loop-free (complete); Piecewise level bounded in N.',
-    'assumptions': [PARAM, 'bounded: N <= 3 pieces (quick) / 4 (thorough) for the Piecewise-level loops',
+    'assumptions': [PARAM, 'bounded: N <= 4 pieces for the Piecewise-level loops',
                     'that the operation on each concrete piece type acts pointwise is C14'],
 }
 
